@@ -4,6 +4,25 @@ from ..flow import ev_call, ev_exit, ev_return, ev_assign, ev_any
 from .C04 import is_mutator
 
 
+def list_scan_complete(ck, rule="P6.list-scan-complete", pid="C03"):
+    ck.rule("%s ContentLengthInterpreter::checkList: the scan over a list-valued Content-Length stops early only with sawBad established; "
+            "otherwise it runs until strListGetItem() is exhausted (a later conflicting value must not be skipped after a tolerated duplicate)" % rule.split(".")[0])
+    cl = ck.facts(["src/http/ContentLengthInterpreter.cc"]).fn("Http::ContentLengthInterpreter::checkList")
+    scan = ev_call("strListGetItem")
+    after_scan = lambda ev: ev.get("e") == "ret"
+    fl6 = ck.flow(cl, markers={"scan": scan}, track_markers=["scan"],
+                  track_atoms={"more": E.m_calls("strListGetItem"), "bad": E.m_is_mem("sawBad")})
+    rets = [s for s in fl6.find(after_scan) if s.passed("scan")]
+    ck.need(rets, "%s: no return after the list scan in checkList" % pid)
+    for s in rets:
+        if s.tracked("more") is False or s.tracked("bad") is True:
+            ck.ok(rule, s.where(), "checkList leaves the scan with the list exhausted or sawBad set")
+        else:
+            ck.violation(rule, "%s|checkList|early-exit-without-sawBad" % rule.split(".")[0], s.where(),
+                         "checkList can stop scanning a Content-Length list while items remain and sawBad is not set: e.g. '5, 5, 95' is sanitised to 5 "
+                         "and the conflicting 95 is never seen", fl6.witness(s))
+
+
 def run(ck):
     facts = ck.facts(["src/HttpHeader.cc", "src/HttpRequest.cc", "src/client_side.cc", "src/http.cc", "src/client_side_reply.cc",
                       "src/servers/FtpServer.cc"], whole=False)
@@ -109,22 +128,11 @@ def run(ck):
     ck.need(n >= 3, "C03: expected >= 3 Transfer-Encoding emitters, found %d" % n)
 
     # ------------------------------------------------------------------ Content-Length lists
-    ck.rule("P6 ContentLengthInterpreter::checkList: the scan over a list-valued Content-Length stops early only with sawBad established; "
-            "otherwise it runs until strListGetItem() is exhausted (a later conflicting value must not be skipped after a tolerated duplicate)")
-    cl = ck.facts(["src/http/ContentLengthInterpreter.cc"]).fn("Http::ContentLengthInterpreter::checkList")
-    scan = ev_call("strListGetItem")
-    after_scan = lambda ev: ev.get("e") == "ret"
-    fl6 = ck.flow(cl, markers={"scan": scan}, track_markers=["scan"],
-                  track_atoms={"more": E.m_calls("strListGetItem"), "bad": E.m_is_mem("sawBad")})
-    rets = [s for s in fl6.find(after_scan) if s.passed("scan")]
-    ck.need(rets, "C03: no return after the list scan in checkList")
-    for s in rets:
-        if s.tracked("more") is False or s.tracked("bad") is True:
-            ck.ok("P6.list-scan-complete", s.where(), "checkList leaves the scan with the list exhausted or sawBad set")
-        else:
-            ck.violation("P6.list-scan-complete", "P6|checkList|early-exit-without-sawBad", s.where(),
-                         "checkList can stop scanning a Content-Length list while items remain and sawBad is not set: e.g. '5, 5, 95' is sanitised to 5 "
-                         "and the conflicting 95 is never seen", fl6.witness(s))
+    list_scan_complete(ck)
+    ck.rule("P1e HttpHeader::parse drops only the single CR of a CRLF line end, so that the bare-CR rejection of Content-Length/Transfer-Encoding (P1) sees every other CR "
+            "(shared with C25 F1b)")
+    from .C25 import single_cr_drop
+    single_cr_drop(ck, ck.facts(["src/HttpHeader.cc"]), rule="P1e.only-one-cr-dropped")
 
     # ------------------------------------------------------------------ kick
     ck.rule("P5 ConnStateData::kick: parseRequests() only with stoppedReceiving() established null")
